@@ -238,7 +238,7 @@ def check_dominates(fx, R, inst, f, must, then, what, why):
     if skipped and not uncond:
         R.violated('Y4', inst + ':conditional-init', '%s is executed only under a condition (%s): on the other path the cast runs on the state left by earlier casts - %s' % (
             what, [s[1] for s in seq if s[0] == 'if'], why), fx.rel(f['loc']), 'E-STATE')
-    elif not uncond and not skipped and any(s == ('return', then) or (isinstance(s, tuple) and s[0] == 'return') for s in seq):
+    elif not uncond and not skipped and any(s == ('return', then) or (isinstance(s, tuple) and s[0] == 'return') for s in seq) and not any(s[0] == 'expr' for s in seq if isinstance(s, tuple)):
         R.violated('Y4', inst + ':missing-init', '%s is not called before the traversal: %s' % (what, why), fx.rel(f['loc']), 'E-STATE')
     else:
         R.undecided('Y4', inst, 'call sequence not recognised: %s' % (seq,))
